@@ -7,6 +7,7 @@
   The worker is the FIFO one-answer-per-request loop of python_worker.py (assumption recorded in the trusted base).
 -/
 import MoThreads.Proofs.PyInv
+import MoThreads.Proofs.PyRank
 namespace MoThreads.PyProxy
 open MoThreads
 
@@ -167,5 +168,16 @@ example : sys.Reach init ∧ sys.Quiescent init := by
   · split
     · rfl
     · simp [stepC, init]
+
+/-- L2: with no new calls, the callers, the stdout reader and the worker together take at most `rank N s` steps,
+under any scheduler (every request and reply line consumed pays for the steps it causes) … -/
+theorem C19_runs_terminate {N : Nat} {s s' : State} {tr : List (Nat × Label)} (hb : Below N s) (r : sys.Run s tr s') :
+    tr.length ≤ rank N s := by
+  have := run_length_le_rank hb r; omega
+
+/-- … and when such a run comes to rest every call has returned (to its own caller: `C19_returns_own_answer`). -/
+theorem C19_every_call_returns {N : Nat} {s s' : State} {tr : List (Nat × Label)} (h : sys.Reach s) (hb : Below N s)
+    (r : sys.Run s tr s') : tr.length ≤ rank N s ∧ (sys.Quiescent s' → ∀ t, ∃ r, s'.cpc t = .idle r) :=
+  ⟨C19_runs_terminate hb r, fun hq t => C19_no_call_blocks (h.run sys r) hq t⟩
 
 end MoThreads.PyProxy
